@@ -2,6 +2,7 @@ package gen
 
 import (
 	"fmt"
+	"strings"
 
 	"verif/sim/prng"
 )
@@ -13,7 +14,9 @@ type Injection struct {
 }
 
 var injectKinds = []string{"goto", "labelled-break", "labelled-continue", "select-default", "select-recv", "defer", "defer-in-if",
-	"fallthrough-yielding", "range-func", "range-ptr-array", "yield-if-init", "yield-switch-init", "go-yield"}
+	"fallthrough-yielding", "range-func", "range-ptr-array", "yield-if-init", "yield-switch-init", "go-yield",
+	// the construct without any yield of its own, directly in the generator body (not in a closure)
+	"select-break-noyield", "labelled-break-noyield", "goto-noyield", "defer-noyield", "select-default-noyield"}
 
 // rawInject returns the source text of the construct (placeholders as in templates).
 func rawInject(kind string, tag func() int, control bool) string {
@@ -50,6 +53,16 @@ func rawInject(kind string, tag func() int, control bool) string {
 		return fmt.Sprintf("switch «Yield»(98); {\ndefault:\n\tvrt.E(%d)\n}", tag())
 	case "go-yield":
 		return "go «Yield»(99)"
+	case "select-break-noyield":
+		return fmt.Sprintf("ch9 := make(chan int, 1)\nch9 <- 5\nselect {\ncase v9 := <-ch9:\n\tvrt.E(%d, v9)\n\tif v9 == 5 {\n\t\tbreak\n\t}\n\tvrt.E(%d)\ndefault:\n\tvrt.E(%d)\n}\n«Yield»(89)", tag(), tag(), tag())
+	case "select-default-noyield":
+		return fmt.Sprintf("select {\ndefault:\n\tvrt.E(%d)\n}\n«Yield»(88)", tag())
+	case "labelled-break-noyield":
+		return fmt.Sprintf("L9:\n\tfor i9 := 0; i9 < 3; i9++ {\n\t\tfor {\n\t\t\tvrt.E(%d, i9)\n\t\t\tbreak L9\n\t\t}\n\t}\n«Yield»(87)", tag())
+	case "goto-noyield":
+		return fmt.Sprintf("if len(\"x\") == 2 {\n\tgoto L9\n}\nvrt.E(%d)\nL9:\n\tvrt.E(%d)\n«Yield»(86)", tag(), tag())
+	case "defer-noyield":
+		return fmt.Sprintf("func() {\n\tdefer vrt.E(%d)\n}()\ndefer vrt.E(%d)\n«Yield»(85)", tag(), tag())
 	}
 	panic("bad injection kind")
 }
@@ -59,7 +72,7 @@ func rawInject(kind string, tag func() int, control bool) string {
 func Inject(r *prng.R, f *Func, tag func() int) Injection {
 	kinds := injectKinds
 	inj := Injection{Kind: kinds[r.Intn(len(kinds))], Control: r.Chance(1, 4)}
-	if inj.Control && (inj.Kind == "yield-if-init" || inj.Kind == "yield-switch-init" || inj.Kind == "go-yield") {
+	if inj.Control && (inj.Kind == "yield-if-init" || inj.Kind == "yield-switch-init" || inj.Kind == "go-yield" || strings.HasSuffix(inj.Kind, "-noyield")) {
 		inj.Control = false // these constructs ARE a yield; there is no yield-free control of them
 	}
 	text := rawInject(inj.Kind, tag, inj.Control)
